@@ -86,6 +86,8 @@ impl GenCtx {
 pub trait Parts: Sized {
     fn gen(g: &mut GenCtx) -> (Self, Node);
     fn tree(&self) -> Node;
+    /// build the number a reference tree describes, through the public constructors
+    fn from_tree(n: &Node) -> Self;
 }
 
 impl Parts for f64 {
@@ -96,6 +98,12 @@ impl Parts for f64 {
     fn tree(&self) -> Node {
         Node::F64(self.to_bits())
     }
+    fn from_tree(n: &Node) -> Self {
+        match n {
+            Node::F64(b) => f64::from_bits(*b),
+            _ => panic!("harness error: f64 leaf expected"),
+        }
+    }
 }
 impl Parts for f32 {
     fn gen(g: &mut GenCtx) -> (Self, Node) {
@@ -104,6 +112,12 @@ impl Parts for f32 {
     }
     fn tree(&self) -> Node {
         Node::F32(self.to_bits())
+    }
+    fn from_tree(n: &Node) -> Self {
+        match n {
+            Node::F32(b) => f32::from_bits(*b),
+            _ => panic!("harness error: f32 leaf expected"),
+        }
     }
 }
 
@@ -118,6 +132,12 @@ macro_rules! parts_impl {
             }
             fn tree(&self) -> Node {
                 Node::Struct { name: $name.to_string(), fields: vec![$(($doc.to_string(), self.$f.tree())),+] }
+            }
+            fn from_tree(n: &Node) -> Self {
+                let Node::Struct { fields, .. } = n else { panic!("harness error: struct expected") };
+                let mut it = fields.iter();
+                $( let $f = T::from_tree(&it.next().expect("field").1); )+
+                $ty::new($($f),+)
             }
         }
     };
@@ -173,6 +193,8 @@ pub trait SubjectDyn {
     fn ser(&self, st: &RefCell<SerState>, hr: bool) -> Result<Node, SimError>;
     /// real `Deserialize::deserialize` from the simulated deserializer; the result read through public fields
     fn de(&self, rec: &Node, st: &RefCell<DeState>, p: &Presentation) -> Result<Node, SimError>;
+    /// real `Deserialize::deserialize_in_place` into an existing number built from the tree `target`
+    fn de_in_place(&self, rec: &Node, st: &RefCell<DeState>, p: &Presentation, target: &Node) -> Result<Node, SimError>;
     fn json_text(&self, pretty: bool) -> Result<String, String>;
     fn json_roundtrip(&self, path: JsonPath) -> Result<Node, String>;
     fn json_from_text(&self, text: &str) -> Result<Node, String>;
@@ -194,6 +216,11 @@ impl<T: Parts + Serialize + DeserializeOwned> SubjectDyn for Subj<T> {
     }
     fn de(&self, rec: &Node, st: &RefCell<DeState>, p: &Presentation) -> Result<Node, SimError> {
         deserialize_tree::<T>(rec, st, p).map(|v| v.tree())
+    }
+    fn de_in_place(&self, rec: &Node, st: &RefCell<DeState>, p: &Presentation, target: &Node) -> Result<Node, SimError> {
+        let mut place = T::from_tree(target);
+        serde::Deserialize::deserialize_in_place(crate::de::SimDe { node: rec, st, p, path: 1 }, &mut place)?;
+        Ok(place.tree())
     }
     fn json_text(&self, pretty: bool) -> Result<String, String> {
         if pretty { serde_json::to_string_pretty(&self.v) } else { serde_json::to_string(&self.v) }.map_err(|e| e.to_string())
